@@ -5,8 +5,9 @@ root = pathlib.Path(__file__).resolve().parent.parent
 lines = []
 for i in range(1, 21):
     pid = 'C%02d' % i
-    src = (root / 'lean' / 'Rbql' / 'Theorems' / (pid + '.lean')).read_text()
-    names = re.findall(r'^theorem (%s_\w+)' % pid, src, re.M)
+    names = []
+    for f in sorted((root / 'lean' / 'Rbql' / 'Theorems').glob('*.lean')):
+        names += re.findall(r'^theorem (%s_\w+)' % pid, f.read_text(), re.M)
     lines.append('* **%s** (%d): %s' % (pid, len(names), ', '.join('`%s`' % n for n in names)))
 d = (root / 'DESIGN.md').read_text()
 head = '### 7.0 As built'
